@@ -308,7 +308,18 @@ def run(ctx):
         kind, ty, bs, qm, init, ops, slot = meta[cid]
         args = next(a for c, s, a in cases if c == cid)
         if kind == "hist":
-            args = args[:k + 2]     # shrink: the prefix up to the first differing step
+            if impl.get(cid) in (None, "PANIC"):
+                # the whole history panicked: bisect to the shortest prefix that still does
+                lo, hi = 1, len(args) - 1
+                while lo < hi:
+                    mid = (lo + hi) // 2
+                    if h.run([("x", slot, args[:mid + 1])]).get("x") in (None, "PANIC"):
+                        hi = mid
+                    else:
+                        lo = mid + 1
+                args = args[:lo + 1]
+            else:
+                args = args[:k + 2]     # shrink: the prefix up to the first differing step
         line = next((l for l in mlines if l.startswith(cid + " ")), None)
         return dict({"kind": "history", "storage": ty, "base_set": bs, "quantity": qm, "case": kind,
                      "operations": args, "implementation": impl.get(cid), "first_differing_step": k,
